@@ -403,7 +403,7 @@ def main(tier, seed):
                     pass
         return k, res, info
 
-    for k, res, info in run.pmap(one, range(ncases)):
+    for k, res, info in run.pmap_proc(one, range(ncases), chunk=4):
         ctx.count('%s|%d|%s' % (info['nmode'], info['acc'], ','.join(info['types'])[:90]), nontrivial=info['file'] and info['ncreated'] >= 3 and info['nlinks'] >= 3)
         ctx.bump('json_lines_parsed', info['lines'])
         ctx.bump('constraint_records', info['ncreated'])
